@@ -435,7 +435,9 @@ Definition uniform (t : nat) (hist : list round_obs) : bool :=
 (** C03.  [t] threads.  Zero case: nothing runs.  Test mode: one call per
     thread, nothing stored.  Bench mode with an explicit size [s]: every round
     has size [s], every thread makes [s] calls per round, every round records
-    one sample per thread; and when no time limit is reached in the first
+    one sample per thread; the reported iters are the recorded samples times
+    the number of calls each of them actually took (the last round's size, also
+    when the size was tuned and max_time cut the run); and when no time limit is reached in the first
     [R = ceil(n/t)] rounds and the time floor is reached by then, exactly [R]
     rounds are run.  The reported figures are the number of recorded samples
     and that number times the sample size. *)
@@ -452,9 +454,12 @@ Definition c03_sb (c : cfg) (t : nat) (init : N) (hist : list round_obs) (o : se
     (o_stat_samples o =? 0) && (o_stat_iters o =? 0)
   else
     let recorded := N.of_nat (length (o_samples o)) in
+    (* the size of the recorded samples as the call counters saw it: the last round's *)
+    let last_sz := last (o_sizes o) 0 in
     (o_stat_samples o =? recorded) && (o_stat_iters o =? recorded * o_final_size o) &&
+    (o_final_size o =? last_sz) && (o_stat_iters o =? recorded * last_sz) &&
     match c_size c with
-    | None => true   (* the tuned case is C19's *)
+    | None => true   (* the rest of the tuned case is C19's *)
     | Some s =>
         let n := sample_count_of c in
         let r := ceil_div n tN in
